@@ -17,7 +17,7 @@
   on the doubles of the tree has the shape `g17Shape` — a hypothesis on libc inside `treeOk`, checked against
   glibc and against the exact reference `Dbl.fmtG17` on every double of every correspondence run.
 -/
-import JsonC.Lemmas.SerializeRoundtrip
+import JsonC.Lemmas.SerializeUtf8
 import JsonC.Model.Tokener
 
 namespace JsonC.Serialize
@@ -96,9 +96,8 @@ colour-stripped output is the rendering `Doc.text` of the explicitly constructed
 whose pieces are well-formed (`Doc.ok`: digits are digits, no superfluous leading zero, unescaped bytes
 are neither control characters nor `"` nor `\`, hex digits are hex digits).  RFC 8259 additionally
 requires the text to be UTF-8: string bytes ≥ 0x80 are copied verbatim (`ser_escape_bytes`,
-`escByte_high`), so the text is RFC 8259 exactly when every string and key of the tree is UTF-8
-(`utf8Tree`; the correspondence run checks `utf8Valid text = utf8Tree v` on every case with two
-independent UTF-8 validators). -/
+`escByte_high`), so the text is RFC 8259 exactly when every string and key of the tree is UTF-8:
+that is `ser_utf8_iff` below. -/
 theorem ser_is_doc (flags : Nat) (v : JVal) (hok : treeOk fmt v = true) (hn : 2 * nest v ≤ intMax) :
     ∃ d t, serialize fmt flags v = .ok t ∧ docOfTop fmt flags v = some d ∧ d.ok = true ∧ stripColor t = d.text := by
   have key : ∀ v, treeOk fmt v = true → 2 * nest v ≤ intMax →
@@ -117,6 +116,22 @@ theorem ser_is_doc (flags : Nat) (v : JVal) (hok : treeOk fmt v = true) (hn : 2 
   | str s => exact key _ hok hn
   | arr xs => exact key _ hok hn
   | obj kvs => exact key _ hok hn
+
+/-- **ser_utf8_iff**: the rendering is well-formed UTF-8 (`Rfc8259.utf8Valid`, RFC 3629: shortest form, no
+surrogates, ≤ U+10FFFF) **exactly when** every string and every key of the tree is (`utf8Tree`) — for
+every tree with a rendering, every flag word.  Together with `ser_is_doc`: for trees whose strings are
+UTF-8 the colour-stripped output *is* RFC 8259 text (`d.ok ∧ utf8Valid d.text`); for a tree holding a
+non-UTF-8 string it is not, and the only reason is those string bytes, emitted verbatim. -/
+theorem ser_utf8_iff (flags : Nat) (v : JVal) (d : Doc) (hd : docOfTop fmt flags v = some d) :
+    utf8Valid d.text = utf8Tree v :=
+  piece_acc ((utf8_all fmt).1 v (Fl.ofNat flags) 0 d hd)
+
+/-- … stated on the serializer's output itself -/
+theorem ser_rfc8259 (flags : Nat) (v : JVal) (hok : treeOk fmt v = true) (hn : 2 * nest v ≤ intMax) :
+    ∃ (d : Doc) (t : Bytes), serialize fmt flags v = .ok t ∧ stripColor t = d.text ∧ d.ok = true ∧
+      utf8Valid (stripColor t) = utf8Tree v := by
+  obtain ⟨d, t, h1, h2, h3, h4⟩ := ser_is_doc fmt flags v hok hn
+  exact ⟨d, t, h1, h4, h3, by rw [h4]; exact ser_utf8_iff fmt flags v d h2⟩
 
 /-- **ser_denotes**: that document denotes the tree, up to the equality of the property (`valEq`: integers
 by value whatever the C type, doubles by IEEE bit pattern, strings/keys by bytes, members in order).
